@@ -44,6 +44,30 @@ def written_symbols(raw_text):
     return [x for x in out if x != "H"]
 
 
+def written_bonds(raw_text):
+    """inner bonds (i, j, RDKit bond type) of a token in written atom numbering, read by RDKit off the WRITTEN text in which every bond
+    descriptor is replaced by a dummy atom (independent of the library's own fragment string); None when that reading is not available"""
+    if "[H]" in raw_text:
+        return None          # explicit hydrogens are dropped by RDKit: the numbering of the written text no longer applies
+    text = _DESC.sub("[*]", raw_text.strip())
+    try:
+        mol = Chem.MolFromSmiles(text)
+    except Exception:
+        return None
+    if mol is None:
+        return None
+    real = {}
+    for a in mol.GetAtoms():
+        if a.GetAtomicNum() != 0:
+            real[a.GetIdx()] = len(real)
+    out = []
+    for b in mol.GetBonds():
+        i, j = b.GetBeginAtomIdx(), b.GetEndAtomIdx()
+        if i in real and j in real:
+            out.append((min(real[i], real[j]), max(real[i], real[j]), int(b.GetBondType())))
+    return len(real), sorted(out)
+
+
 def oracle_c05(rec):
     out = []
     s = rec["summary"]
@@ -67,6 +91,12 @@ def oracle_c05(rec):
         fs = [a.GetSymbol() for a in frag.GetAtoms() if a.GetAtomicNum() != 1]
         if ws != fs:
             out.append(("residue-differs-from-written-token", inp, f"token written as {tok._raw_text!r} has atoms {ws}; its residues are built from {fs}", None))
+        wb = written_bonds(tok._raw_text)
+        if wb is not None and wb[0] == frag.GetNumAtoms():
+            fb0 = sorted((min(b.GetBeginAtomIdx(), b.GetEndAtomIdx()), max(b.GetBeginAtomIdx(), b.GetEndAtomIdx()), int(b.GetBondType())) for b in frag.GetBonds())
+            if fb0 != wb[1]:
+                out.append(("residue-differs-from-written-token", inp, f"token written as {tok._raw_text!r}: RDKit reads the inner bonds {wb[1]} off the written text "
+                            f"(descriptors as dummy atoms); its residues are built with {fb0}", None))
         if frag.GetNumAtoms() != s["sizes"][i]:
             out.append(("residue-size", inp, f"instance {i} of {tok}", None))
             continue
